@@ -415,6 +415,25 @@ func stat(op, name string, follow bool) (FileInfo, error) {
 	return fileInfo{name: path.Base(name), size: int64(len(n.Data)), mode: n.Mode, nlink: w.nlink(n)}, nil
 }
 
+// Readlink returns the destination of a symbolic link.
+func Readlink(name string) (string, error) {
+	w := world()
+	w.enter(false)
+	defer w.mu.Unlock()
+	w.meta("readlink")
+	n := w.Nodes[clean(name)]
+	switch {
+	case tooLong(name):
+		return "", pathErr("readlink", name, syscall.ENAMETOOLONG)
+	case n == nil:
+		return "", pathErr("readlink", name, syscall.ENOENT)
+	case n.Mode&ModeSymlink == 0:
+		return "", pathErr("readlink", name, syscall.EINVAL)
+	}
+	w.log(OpRec{Kind: "readlink", Path: name, Task: w.task()})
+	return n.Target, nil
+}
+
 func Stat(name string) (FileInfo, error)  { return stat("stat", name, true) }
 func Lstat(name string) (FileInfo, error) { return stat("lstat", name, false) }
 
